@@ -3,7 +3,7 @@
 import fcntl, json, os, re, subprocess, sys, time
 
 prop, tier, seed = sys.argv[1], sys.argv[2], int(sys.argv[3])
-V = "/verif"
+V = os.environ.get("VERIF_ROOT") or os.path.dirname(os.path.dirname(os.path.abspath(__file__)))
 BUILD = V + "/.build"
 LEAN = V + "/lean"
 t0 = time.time()
@@ -106,10 +106,11 @@ if rc2:
 # 4.-6. correspondence, oracle, decision
 part = "%s/evidence_%s.json" % (BUILD, prop)
 if os.path.exists(part): os.remove(part)
-cmd = "%s check %s --tier %s --seed %d --evidence %s" % (hbin, prop, tier, seed, part)
+cmd = "%s check %s --tier %s --seed %d --evidence %s --replays %s/replays --known %s/known_findings.json --corpus %s/corpus" % (hbin, prop, tier, seed, part, V, V, V)
 if failed:
     cmd += " --failed-obligations '%s'" % ",".join("JenVerif.Props.%s.%s" % (prop, f) if not f.startswith("<") else f for f in failed)
 env_extra = "GORACE='halt_on_error=0 exitcode=66' " if race else ""
+os.environ["VERIF_DRIVER"] = LEAN + "/.lake/build/bin/driver"
 p = subprocess.run(env_extra + cmd, shell=True, cwd=V, stdout=subprocess.PIPE, stderr=subprocess.PIPE, text=True)
 stdout = "\n".join(l for l in p.stdout.splitlines() if not l.startswith("WARNING conda"))
 print(stdout)
@@ -133,7 +134,7 @@ ev = {
     "property_id": prop, "tier": tier, "seed": seed, "level": "proof",
     "coverage": {
         "obligations": len(obligations), "discharged": len(obligations) - len([f for f in failed if f in obligations]) if obligations else 0,
-        "checker_cmd": "cd /verif/lean && lake build JenVerif.Props.%s  (then `lake env lean` on #print axioms for every theorem%s)" % (prop, "; lake env leanchecker" if tier == "thorough" else ""),
+        "checker_cmd": "cd " + LEAN + " && lake build JenVerif.Props.%s  (then `lake env lean` on #print axioms for every theorem%s)" % (prop, "; lake env leanchecker" if tier == "thorough" else ""),
         "trusted_base": ["Lean 4.33.0 kernel", "axioms: propext, Classical.choice, Quot.sound only (audited per theorem below)",
                          "translator /verif/translator (go/ast): Gen tables = literals of /repo's working tree",
                          "correspondence harness /verif/harness (differential testing of the hand-written model against the real library)",
